@@ -1,1 +1,6 @@
-//! verification harness library
+//! verification harness library: real wallets over a real chain, projected
+//! into the vocabulary of the TLA+ specification (spec/Wallet.tla)
+pub use grin_wallet_libwallet as libwallet;
+pub mod node;
+pub mod world;
+pub mod driver;
